@@ -394,6 +394,66 @@ func checkC12(c *Ctx) {
 			"both inside one exclusive section of Scheme.lock", "the test that refuses a duplicate and the insertion are not in one exclusive critical section: two concurrent calls can both pass the test")
 	}
 
+	// ------------------------------------------------------------------ O2: only the admitted call releases
+	const O2 = "C12.O2"
+	c.Rule(O2, "a release in the API entry is armed only after its own admission succeeded", 2)
+	for _, r := range regs {
+		// refusing registrations (test-and-insert that returns an error when present)
+		refusing := false
+		for _, f := range FactsAt(r.instr) {
+			if f.Op != 0 || f.True {
+				continue
+			}
+			if r.key != nil {
+				if tup, ok := commaOK(f.Bool); ok {
+					if lk, ok := tup.(*ssa.Lookup); ok && isLoadOfField(lk.X, r.table) {
+						refusing = true
+					}
+				}
+			} else if isLoadOfField(f.Bool, r.table) {
+				refusing = true
+			}
+		}
+		if !refusing {
+			continue
+		}
+		for _, root := range apiRoots {
+			if !t.reaches(root, r.instr.Parent()) {
+				continue
+			}
+			// the admission call in the root
+			var adm *ssa.Call
+			for _, in := range instrsOf(root) {
+				if cl, ok := in.(*ssa.Call); ok {
+					if g := t.resolveCallee(cl); g != nil && (g == r.instr.Parent() || t.reaches(g, r.instr.Parent())) && cl.Call.Signature().Results().Len() > 0 {
+						adm = cl
+					}
+				}
+			}
+			if adm == nil {
+				continue
+			}
+			for _, in := range instrsOf(root) {
+				if in == ssa.Instruction(adm) || !t.isReleaseInstr(in, r) {
+					continue
+				}
+				ok := instrDominates(adm, in) && hasFact(FactsAt(in), func(f Fact) bool {
+					if f.Op != token.EQL || !isNilConst(f.Y) {
+						return false
+					}
+					x := strip(f.X)
+					if e, isE := x.(*ssa.Extract); isE {
+						x = e.Tuple
+					}
+					return x == ssa.Value(adm)
+				})
+				c.Check(ok, O2, FuncName(root), "release of "+r.table.Name()+" armed after successful admission", m.Pos(in.Pos()),
+					"dominated by the admission call returning no error",
+					"the release is armed before (or regardless of) the admission check: a call that is refused because a session on the same topic / a key generation is already running removes the state of that running session when it returns — the running session loses its handlers and a third concurrent call is admitted")
+			}
+		}
+	}
+
 	// ------------------------------------------------------------------ G1
 	nDisp := 0
 	for _, f := range []*types.Var{t.fSyncTab, t.fRBCTab, t.fClsTab} {
